@@ -27,3 +27,33 @@ CHECKS = {
         "level_note": "Decides only the strings executed; no model is involved (pure identity law).",
     },
 }
+
+CHECKS["C03"] = {
+    "parts": BASE,
+    "level": "exploration",
+    "technique": "runtime monitor: dialect lexers/decoders written from the engine manuals + real SQLite engine decode the rendered literal; marker-vs-hostile token-sequence comparison (bounded-exhaustive + random)",
+    "rule": "inputs: every string over the 21-symbol escape alphabet {' \" \\ NUL BS TAB LF CR SUB % _ a z Z 0 x e-acute euro g-clef ? $} up to length 3 (quick) / 4 (thorough) in each of 19 literal positions (query values, constants, ORDER BY FIELD, LIKE/ESCAPE, JSON, Postgres ARRAY, DEFAULT, MySQL COMMENT and ENUM labels, Postgres CREATE/ALTER TYPE labels, inject_parameters, INSERT/UPDATE values) x 3 backends; every char U+0000..U+FFFF plus sampled astral chars as Value::Char and as LIKE ESCAPE char; all byte strings of length <= 2 and random longer ones; random Unicode strings. Non-trivial = the value contains a non-alphanumeric character; distinct = distinct (value, position, backend)",
+    "assumptions": [
+        "MySQL default sql_mode (no ANSI_QUOTES / NO_BACKSLASH_ESCAPES); Postgres standard_conforming_strings=on; lexical rules transcribed from the manuals (DESIGN Appendix A)",
+        "NUL is excluded for Postgres and SQLite text (no representation, as the property states)",
+        "SQLite literals are additionally decoded by the real engine 3.40.1 (SELECT <literal>, DEFAULT read back)",
+    ],
+    "design_ref": "DESIGN.md §5 C03, Appendix A",
+    "level_text": "Each rendered literal is lexed by an independent model of the target engine's lexer and must be exactly one literal token decoding to the supplied value, with the rest of the statement's token sequence unchanged (an early-closing literal changes the sequence); SQLite literals are also decoded by the real engine. Exploration with a bounded-exhaustive core is the right level because escaping can only fail on short sequences of escape-relevant characters, all of which are enumerated in every position.",
+    "level_note": "Trusted: the MySQL and Postgres lexer models (no such engines in the sandbox). Decides only the values and positions executed.",
+}
+
+CHECKS["C04"] = {
+    "parts": BASE,
+    "level": "exploration",
+    "technique": "runtime monitor: dialect lexers decode every rendered identifier; marker-vs-hostile token-sequence comparison over 62 identifier positions; SQLite catalogue / column-name read-back",
+    "rule": "inputs: every non-empty string over the 12-symbol identifier alphabet {\" ` ' \\ space ; - . [ ] a e-acute} up to length 3 (quick) / 4 (thorough) in each of 62 identifier positions of query and schema statements x 3 backends, plus random Unicode names up to 32 chars; non-trivial = the name contains a non-alphanumeric character; distinct = distinct (name, position, backend)",
+    "assumptions": [
+        "identifier lexical rules from the manuals: MySQL backtick with doubled backtick (no backslash escapes), Postgres/SQLite double quote with doubled double quote",
+        "empty identifiers and NUL are outside the domain; a Postgres enum cast type ending in [] denotes the array form by documented convention",
+        "SQLite: names are additionally read back from the engine (result column name, sqlite_master, pragma_table_xinfo)",
+    ],
+    "design_ref": "DESIGN.md §5 C04",
+    "level_text": "Every identifier slot is rendered with hostile names and lexed with an independent model of the engine's lexer: the statement must keep the token sequence it has for a benign name and the slot must be one quoted-identifier token decoding to the supplied string; for SQLite the engine's own catalogue confirms the decoded name. Bounded-exhaustive over the quote-relevant alphabet because only short combinations of quote characters can break quoting.",
+    "level_note": "Trusted: the MySQL/Postgres identifier lexing models. Positions covered are listed in the evidence (observed_sets.positions).",
+}
